@@ -47,12 +47,16 @@ def offsets_of(info):
 
 
 def patch(path, pos, new_bytes):
+    if pos < 0 or pos > (1 << 31):
+        return False       # an earlier damage made the offset table nonsensical: nothing to patch there
     with open(path, "r+b") as fh:
         fh.seek(pos)
         fh.write(new_bytes)
 
 
 def flip(path, pos, mask=1):
+    if pos < 0 or pos > (1 << 31):
+        return False
     with open(path, "r+b") as fh:
         fh.seek(pos)
         b = fh.read(1)
